@@ -250,7 +250,8 @@ def roundX (r : Rat → Rat) : XR → XR
 def storeArr (r : Rat → Rat) (a : Arr) : NcArr := ⟨a.dims, a.data.map fun v => .val (roundX r v)⟩
 def storeVec (r : Rat → Rat) (v : List XR) : NcArr := ⟨[v.length], v.map fun x => .val (roundX r x)⟩
 
-/-- `var[:] = None` leaves an all-NaN variable -/
+/-- `var[:] = None` leaves an all-NaN variable (the cdf / x variables of an input that has thresholds /
+quantile levels but no such array; before 5c8853e also obs / fcst) -/
 def nanArr (dims : List Nat) : Arr := ⟨dims, List.replicate (Arr.prod dims) .nan⟩
 
 /-- `units.replace("$", "")` -/
@@ -258,9 +259,10 @@ def stripDollar (u : List Char) : List Char := u.filter (· ≠ '$')
 
 /-- the file `text2nc.py` writes for an input with the attributes `D`.
 Written: threshold + cdf and quantile + x (when there are any), time (f8, exact), leadtime, location (i4),
-ensemble (when the input has members), lat, lon, altitude, fcst, obs (always, all-NaN when the input has
-none), pit and every other field (f4), attributes standard_name, units and — when set — x0, x1 (doubles:
-stored exactly). -/
+ensemble (when the input has members), lat, lon, altitude, then fcst and obs — each ONLY when the input has
+that field (since 5c8853e: `if input.fcst is not None` / `if input.obs is not None`; a text file without an obs
+column gives a NetCDF file without an obs variable, not one with all-missing observations) —, pit and every
+other field (f4), attributes standard_name, units and — when set — x0, x1 (doubles: stored exactly). -/
 def text2nc (R : Rounding) (D : Dataset) : NcVars :=
   let shape3 := [D.times.length, D.leads.length, D.locs.length]
   let nthr := if D.thresholds.isEmpty then none else some D.thresholds.length
@@ -281,9 +283,9 @@ def text2nc (R : Rounding) (D : Dataset) : NcVars :=
           ("location", storeVec R.i32 (D.locs.map (·.id))),
           ("lat", storeVec R.r32 (D.locs.map (·.lat))),
           ("lon", storeVec R.r32 (D.locs.map (·.lon))),
-          ("altitude", storeVec R.r32 (D.locs.map (·.elev))),
-          ("fcst", storeArr R.r32 (D.fcst.getD (nanArr shape3))),
-          ("obs", storeArr R.r32 (D.obs.getD (nanArr shape3)))]
+          ("altitude", storeVec R.r32 (D.locs.map (·.elev)))]
+      ++ optVar "fcst" (D.fcst.map (storeArr R.r32))
+      ++ optVar "obs" (D.obs.map (storeArr R.r32))
       ++ optVar "pit" (D.pit.map (storeArr R.r32))
       ++ D.others.map fun p => (p.1, storeArr R.r32 p.2)
     standardName := some D.var.name
